@@ -32,6 +32,10 @@ pub enum Behaviour {
     /// refuse StartTLS with this result code, but go along with a TLS handshake (trusted
     /// certificate) if the client starts one anyway
     RefuseThenTls(u32),
+    /// like RefuseThenTls, but the refusal carries no responseName (0), the Notice of Disconnection
+    /// OID (1) or some other OID (2) instead of the StartTLS OID: a refusal is a refusal whatever it
+    /// is named
+    RefuseNamedThenTls(u32, u8),
     /// answer StartTLS with bytes that are not an LDAP message
     Garbage,
     /// answer StartTLS with a well-formed non-extended response
@@ -184,6 +188,15 @@ async fn handle(mut s: TcpStream, setup: Setup, tap: Arc<Mutex<Tap>>) {
             Behaviour::RefuseThenTls(rc) => {
                 let _ = s.write_all(&ext_ok(*rc)).await;
                 // falls through to the TLS phase: a client that honours the refusal just closes
+            }
+            Behaviour::RefuseNamedThenTls(rc, name) => {
+                let name = match name {
+                    0 => None,
+                    1 => Some("1.3.6.1.4.1.1466.20036".to_string()),
+                    _ => Some("1.2.840.113556.1.4.9999".to_string()),
+                };
+                let _ = s.write_all(&ber::encode_min(&resp_node(id, &Resp::Extended { res: Res::code(*rc, "refused"), name, value: None }, None))).await;
+                // falls through to the TLS phase
             }
             Behaviour::MalformedThenTls(kind) => {
                 use crate::ber::{Node, APP};
@@ -375,6 +388,9 @@ fn matrix(rng: &mut Rng, reps: usize) -> Vec<Setup> {
                     // codes whose low octet is zero (two-octet ENUMERATED): 4096 is e-syncRefreshRequired
                     Behaviour::RefuseThenTls(*rng.pick(&[256u32, 512, 4096, 8192, 65536])),
                     Behaviour::RefuseThenTls(1 + rng.below(123) as u32),
+                    Behaviour::RefuseNamedThenTls(*rng.pick(&refusals), 0),
+                    Behaviour::RefuseNamedThenTls(*rng.pick(&[2u32, 52, 53, 80]), 1),
+                    Behaviour::RefuseNamedThenTls(*rng.pick(&refusals), 2),
                     Behaviour::Garbage,
                     Behaviour::WrongResponse,
                     Behaviour::MalformedThenTls(rng.below(5) as u8),
@@ -472,7 +488,7 @@ fn judge(setup: &Setup, obs: &Obs, tap: &Tap, rep: &mut Report) {
     };
     // ---- establishment outcome ----
     let must_fail = match &setup.behaviour {
-        Behaviour::Refuse(_) | Behaviour::RefuseThenTls(_) | Behaviour::Garbage | Behaviour::WrongResponse | Behaviour::MalformedThenTls(_) | Behaviour::Close | Behaviour::Silent(_) => true,
+        Behaviour::Refuse(_) | Behaviour::RefuseThenTls(_) | Behaviour::RefuseNamedThenTls(..) | Behaviour::Garbage | Behaviour::WrongResponse | Behaviour::MalformedThenTls(_) | Behaviour::Close | Behaviour::Silent(_) => true,
         Behaviour::Tls(c) => !trusted_for_host(*c) && !setup.no_verify,
         Behaviour::InjectSameSegment(_) | Behaviour::InjectDelayed => false,
     };
@@ -485,6 +501,8 @@ fn judge(setup: &Setup, obs: &Obs, tap: &Tap, rep: &mut Report) {
         Behaviour::Tls(Cert::IpOnly) => if url_host_is_ip { "ip-only-certificate-for-an-ip-url".into() } else { "ip-only-certificate-for-a-host-name".into() },
         Behaviour::Refuse(_) => "starttls-refused".into(),
         Behaviour::RefuseThenTls(rc) => if *rc == 10 { "starttls-refused-with-referral-code-but-server-handshakes".into() } else { "starttls-refused-but-server-handshakes".into() },
+        Behaviour::RefuseNamedThenTls(_, 0) => "starttls-refused-without-a-response-name-but-server-handshakes".into(),
+        Behaviour::RefuseNamedThenTls(..) => "starttls-refused-under-another-response-name-but-server-handshakes".into(),
         Behaviour::Garbage => "garbage-response".into(),
         Behaviour::WrongResponse => "non-extended-response".into(),
         Behaviour::MalformedThenTls(_) => "undecodable-starttls-result-but-server-handshakes".into(),
